@@ -27,9 +27,12 @@ const LEAVES: &[(&str, &str, &str, &str)] = &[
     ("list.0.sub.0.v", r#"["list",0,"sub",0,"v"]"#, r#""s0""#, r#""s1""#),
     ("l2.0", r#"["l2",0]"#, r#""e0""#, r#""e1""#),
     ("l2.1", r#"["l2",1]"#, r#""g0""#, "5"),
+    ("ll.0.0", r#"["ll",0,0]"#, r#""h0""#, r#""h9""#),
+    ("ll.0.1", r#"["ll",0,1]"#, r#""h1""#, "8"),
+    ("ll.1.0", r#"["ll",1,0]"#, r#""h2""#, r#""h7""#),
 ];
 
-const D0: &str = r#"{"a":"a0","b":"b0","c":1,"d":3,"flag":true,"n":0,"s":"x","obj":{"x":"x0","k":"k0","y":{"z":"z0"}},"o2":{"p":"p0","q":"q0"},"list":[{"k":1,"v":"v0","w":"u0","sub":[{"k":11,"v":"s0"}]},{"k":2,"v":"w0","w":"u1","sub":[]}],"l2":["e0","g0"]}"#;
+const D0: &str = r#"{"a":"a0","b":"b0","c":1,"d":3,"flag":true,"n":0,"s":"x","obj":{"x":"x0","k":"k0","y":{"z":"z0"}},"o2":{"p":"p0","q":"q0"},"list":[{"k":1,"v":"v0","w":"u0","sub":[{"k":11,"v":"s0"}]},{"k":2,"v":"w0","w":"u1","sub":[{"k":21,"v":"t0"}]}],"l2":["e0","g0"],"ll":[["h0","h1"],["h2"]]}"#;
 
 /// (expression source, dependency leaves, kind: 's' scalar-valued / 'l' list-valued / 'o' object-valued)
 const EXPRS: &[(&str, &[&str], char)] = &[
@@ -76,7 +79,21 @@ const EXPRS: &[(&str, &[&str], char)] = &[
     ("m.f(s)[n]", &["s", "n"], 's'),
     ("obj[s === 'x' ? 'k' : 'x']", &["obj.x", "obj.k", "s"], 's'),
     ("list[n].sub.length + c", &["n", "c"], 's'),
+    ("m.wrap(a, obj).q.x", &["a", "obj.x"], 's'),
+    ("m.wrap(obj, a).p.y.z + m.wrap(b, c).p", &["obj.y.z", "b"], 's'),
+    ("(flag ? m.wrap(a, obj) : m.wrap(b, o2)).q.k", &["flag", "obj.k"], 's'),
+    ("m.pick(list, n).v", &["list.0.v", "list.1.v", "n"], 's'),
+    ("m.pick(m.rev(l2), n)", &["l2.0", "l2.1", "n"], 's'),
+    ("ll[n][0]", &["ll.0.0", "ll.1.0", "n"], 's'),
+    ("ll[0][n]", &["ll.0.0", "ll.0.1", "n"], 's'),
     ("l2", &["l2.0", "l2.1"], 'l'),
+    ("m.rev(l2)", &["l2.0", "l2.1"], 'l'),
+    ("m.rev([a, b, ...l2])", &["a", "b", "l2.0"], 'l'),
+    ("m.wrap(a, l2).q", &["a", "l2.0", "l2.1"], 'l'),
+    ("ll[n]", &["ll.0.0", "ll.0.1", "ll.1.0", "n"], 'l'),
+    ("m.wrap(a, obj)", &["a", "obj.x", "obj.y.z"], 'w'),
+    ("m.wrap(m.f(a), obj)", &["a", "obj.x", "obj.k"], 'w'),
+    ("flag ? m.wrap(a, obj) : m.wrap(b, obj.y)", &["flag", "a", "obj.x", "obj.y.z"], 'w'),
     ("flag ? l2 : [a, b]", &["flag", "l2.0", "l2.1", "a", "b"], 'l'),
     ("[a, b, ...l2]", &["a", "b", "l2.0"], 'l'),
     ("[obj.x, obj.y.z]", &["obj.x", "obj.y.z"], 'l'),
@@ -88,7 +105,7 @@ const EXPRS: &[(&str, &[&str], char)] = &[
     ("list[n]", &["list.0.v", "list.1.v", "n"], 'o'),
 ];
 
-/// (name, template with @E@, accepted kind, extra: 'p' plain child / 'd' root dynamic slots / '-',
+/// (name, template with @E@, accepted kind, extra: 'p' plain child / 'y' dyn child / 'n' dynn child / 'd' root dynamic slots / '-',
 /// is @E@ in a position the binding map cannot reach?)
 const POSITIONS: &[(&str, &str, char, char, bool)] = &[
     ("text", "<view>{{ @E@ }}</view>", 's', '-', false),
@@ -115,6 +132,9 @@ const POSITIONS: &[(&str, &str, char, char, bool)] = &[
     ("comp-prop", "<plain p=\"{{ @E@ }}\"/>", 's', 'p', false),
     ("comp-prop-in-for", "<block wx:for=\"{{ l2 }}\"><plain p=\"{{ @E@ }}\" q=\"{{ item }}\"/></block>", 's', 'p', true),
     ("comp-slot-content", "<plain p=\"{{ c }}\"><text>{{ @E@ }}</text></plain>", 's', 'p', false),
+    ("dyn-slot-text", "<dyn items=\"{{ list }}\" p=\"{{ c }}\">T:{{ @E@ }}<view>V:{{ @E@ }}</view></dyn>", 's', 'y', false),
+    ("dyn-slot-content-with-values", "<dyn items=\"{{ list }}\" p=\"{{ c }}\"><view slot:sv slot:si=\"i\">{{ i }}:{{ sv.v }}:{{ @E@ }}<text wx:if=\"{{ sv.w }}\">{{ @E@ }}</text></view></dyn>", 's', 'y', true),
+    ("dynn-named-slot-content", "<dynn p=\"{{ c }}\"><view slot=\"a\">A:{{ @E@ }}</view><view slot=\"{{ s === 'x' ? 'a' : 'b' }}\">S:{{ @E@ }}</view>D:{{ @E@ }}</dynn>", 's', 'n', false),
     ("slot-value", "<slot sv=\"{{ @E@ }}\"/>", 's', 'd', false),
     ("slot-value-in-tmpl", "<template name=\"t\"><slot sv=\"{{ q }}\"/></template><template is=\"t\" data=\"{{ q: @E@ }}\"/>", 's', 'd', true),
     ("slot-name", "<slot name=\"{{ @E@ }}\"/>", 's', 'd', true),
@@ -122,6 +142,10 @@ const POSITIONS: &[(&str, &str, char, char, bool)] = &[
     ("for-list", "<block wx:for=\"{{ @E@ }}\">[{{ index }}:{{ item }}]</block>", 'l', '-', true),
     ("for-list-key-this", "<view wx:for=\"{{ @E@ }}\" wx:key=\"*this\">{{ item }}</view>", 'l', '-', true),
     ("for-list-in-if", "<block wx:if=\"{{ c }}\"><view wx:for=\"{{ @E@ }}\">{{ item }}/{{ c }}</view></block>", 'l', '-', true),
+    ("for-of-for", "<block wx:for=\"{{ ll }}\" wx:for-item=\"row\" wx:for-index=\"ri\"><view wx:for=\"{{ row }}\">{{ ri }}/{{ index }}:{{ item }}:{{ @E@ }}</view></block>", 's', '-', true),
+    ("tmpl-data-wrap", "<template name=\"t\"><text>{{ o.q.x }}:{{ o.q.y.z }}:{{ o.q.k }}:{{ o.q.z }}:{{ o.p }}</text></template><template is=\"t\" data=\"{{ o: @E@ }}\"/>", 'w', '-', true),
+    ("tmpl-data-wrap-in-for", "<template name=\"t\"><text>{{ o.q.x }}:{{ o.q.y.z }}:{{ o.p }}:{{ i }}</text></template><block wx:for=\"{{ l2 }}\"><template is=\"t\" data=\"{{ o: @E@, i: item }}\"/></block>", 'w', '-', true),
+    ("comp-prop-wrap", "<plain p=\"{{ (@E@).q }}\"/>", 'w', 'p', false),
     ("comp-prop-object", "<plain p=\"{{ @E@ }}\"/>", 'o', 'p', false),
     ("tmpl-data-spread", "<template name=\"t\"><text>{{ x }}:{{ y.z }}:{{ k }}:{{ v }}:{{ p }}:{{ z }}</text></template><template is=\"t\" data=\"{{ ...(@E@) }}\"/>", 'o', '-', true),
     ("tmpl-data-object", "<template name=\"t\"><text>{{ m.j(o) }}:{{ o.x }}</text></template><template is=\"t\" data=\"{{ o: @E@ }}\"/>", 'o', '-', true),
@@ -130,7 +154,7 @@ const POSITIONS: &[(&str, &str, char, char, bool)] = &[
 
 pub const MODES: &[&str] = &["exact", "coarse", "true", "batch", "single"];
 
-const WXS: &str = "<wxs module=\"m\">exports.f = function(a){ return 'f(' + a + ')' }; exports.j = function(a){ return JSON.stringify(a) }</wxs>";
+const WXS: &str = "<wxs module=\"m\">exports.f = function(a){ return 'f(' + a + ')' }; exports.j = function(a){ return JSON.stringify(a) }; exports.rev = function(a){ return a && a.slice ? a.slice().reverse() : a }; exports.wrap = function(a, b){ return {p: a, q: b} }; exports.pick = function(l, i){ return l[i] }</wxs>";
 
 fn leaf(id: &str) -> (Value, Value, Value) {
     let l = LEAVES.iter().find(|l| l.0 == id).unwrap_or_else(|| panic!("unknown leaf {}", id));
@@ -235,10 +259,16 @@ fn build(seed: u64, i: u64, p: &(&str, &str, char, char, bool), e: &(&str, &[&st
     let mut components = vec![];
     let mut sources = vec![json!(["index", src])];
     let mut using = Map::new();
-    if p.3 == 'p' {
-        components.push(crate::gen::catalogue_component("plain"));
-        sources.push(json!(["comp/plain", crate::gen::catalogue_file("plain").raw.unwrap_or_default()]));
-        using.insert("plain".into(), json!("plain"));
+    let child = match p.3 {
+        'p' => Some("plain"),
+        'y' => Some("dyn"),
+        'n' => Some("dynn"),
+        _ => None,
+    };
+    if let Some(c) = child {
+        components.push(crate::gen::catalogue_component(c));
+        sources.push(json!([format!("comp/{}", c), crate::gen::catalogue_file(c).raw.unwrap_or_default()]));
+        using.insert(c.into(), json!(c));
     }
     let mut root = json!({"is": "root", "methods": ["h1", "h2"], "path": "index", "root": true, "using": using});
     if p.3 == 'd' {
@@ -321,6 +351,9 @@ const MODEL_EXPRS: &[(&str, &[&str], Option<bool>, char)] = &[
     ("list[list.length - 1].v", &["list.0.v", "list.1.v"], None, 'r'),
     ("(flag ? obj : o2).k", &["flag", "obj.k"], None, 'r'),
     ("(flag ? list[0] : list[1]).v", &["flag", "list.0.v", "list.1.v"], None, 'r'),
+    ("(flag ? (a ? obj : o2) : o2).k", &["flag", "a", "obj.k"], None, 'r'),
+    ("(flag ? obj : (a ? o2 : obj)).x", &["flag", "a", "obj.x"], None, 'r'),
+    ("(flag ? (a ? list[0] : list[1]) : list[n]).v", &["flag", "a", "list.0.v", "list.1.v", "n"], None, 'r'),
     ("[obj][0].x", &["obj.x"], Some(false), 'r'),
     ("[a][0]", &["a"], Some(false), 'r'),
     ("({o: obj}).o.x", &["obj.x"], Some(false), 'r'),
@@ -345,6 +378,7 @@ const MODEL_EXPRS: &[(&str, &[&str], Option<bool>, char)] = &[
     ("index", &[], Some(false), 's'),
     ("l2[index]", &["l2.0", "l2.1"], Some(true), 's'),
     ("item + ''", &["l2.0"], Some(false), 's'),
+    ("item", &["ll.0.0", "ll.0.1", "ll.1.0"], Some(true), 's'),
 ];
 
 /// (name, template with @B@ = the whole binding attribute, scope kind of @E@: r root / i record item / s scalar item,
@@ -359,8 +393,12 @@ const MODEL_POSITIONS: &[(&str, &str, char, Option<bool>)] = &[
     ("for-renamed", "<view wx:for=\"{{ list }}\" wx:for-item=\"item\" wx:for-index=\"index\" wx:key=\"k\"><block wx:if=\"{{ c }}\"><input @B@/></block></view>", 'i', Some(true)),
     ("for-in-for", "<block wx:for=\"{{ l2 }}\" wx:for-item=\"o\" wx:for-index=\"oi\"><block wx:for=\"{{ list }}\" wx:key=\"k\"><input @B@/></block></block>", 'i', Some(true)),
     ("for-cond-list", "<block wx:for=\"{{ flag ? list : [] }}\" wx:key=\"k\"><input @B@/></block>", 'i', Some(true)),
+    ("for-cond-member-list", "<block wx:for=\"{{ (flag ? list[0] : list[1]).sub }}\" wx:key=\"k\"><input @B@/></block>", 'i', Some(true)),
+    ("for-nested-cond-member-list", "<block wx:for=\"{{ (flag ? (a ? list[0] : list[1]) : list[1]).sub }}\"><input @B@/></block>", 'i', Some(true)),
     ("for-scalars", "<block wx:for=\"{{ l2 }}\"><input @B@/></block>", 's', Some(true)),
     ("for-scalars-keyed", "<block wx:for=\"{{ l2 }}\" wx:key=\"*this\"><input @B@/></block>", 's', Some(true)),
+    ("for-list-of-lists", "<block wx:for=\"{{ ll }}\" wx:for-item=\"row\" wx:for-index=\"ri\"><block wx:for=\"{{ row }}\"><input @B@/></block></block>", 's', Some(true)),
+    ("for-list-of-lists-cond", "<block wx:for=\"{{ ll }}\" wx:for-item=\"row\"><block wx:for=\"{{ flag ? row : l2 }}\" wx:key=\"*this\"><input @B@/></block></block>", 's', Some(true)),
     ("for-literal-list", "<block wx:for=\"{{ [a, b] }}\"><input @B@/></block>", 's', Some(false)),
     ("for-cond-literal", "<block wx:for=\"{{ flag ? l2 : [a, b] }}\"><input @B@/></block>", 's', None),
     ("for-script-rows", "<block wx:for=\"{{ m.rows }}\" wx:key=\"k\"><input @B@/></block>", 'i', Some(false)),
@@ -443,6 +481,7 @@ fn build11(seed: u64, i: u64, p: &(&str, &str, char, Option<bool>), e: &(&str, &
                 0 => schedule.push(json!(["splice_safe", ["list"], 0, 0, [{"k": 50 + round, "v": format!("n{}", round), "w": "x", "sub": []}]])),
                 1 => schedule.push(json!(["reorder", ["list"], "reverse"])),
                 2 => schedule.push(json!(["splice_safe", ["l2"], 0, 0, [format!("z{}", round)]])),
+                _ if p.0.starts_with("for-list-of-lists") => schedule.push(json!(["splice_safe", ["ll"], 0, 0, [[format!("y{}", round)]]])),
                 _ => schedule.push(json!(["reorder", ["l2"], "rotate"])),
             }
             any = true;
